@@ -170,7 +170,7 @@ func init() {
 			"every earlier version retained by the observer is re-verified at the end of the run; error => no state / no document. distinct_nontrivial = distinct per-DID histories " +
 			"and distinct patch-action sequences",
 		Cases: func(master uint64, tier string) []Case {
-			n := 2400
+			n := 6000
 			if tier == "thorough" {
 				n = 400000
 			}
@@ -194,7 +194,7 @@ func init() {
 			"compared member by member with the reference resolution; one transformer per option set serves the whole run (1-7 method contexts, palette of option sets per run) and every " +
 			"result returned is retained and read again at the end of the run (a result is a value, not a view of the transformer). distinct_nontrivial = distinct (options, #keys, #services, #operations) tuples",
 		Cases: func(master uint64, tier string) []Case {
-			n := 1200
+			n := 4000
 			if tier == "thorough" {
 				n = 200000
 			}
@@ -218,7 +218,7 @@ func init() {
 			"lifecycles; after every Apply all 15 fields and the verdict are compared with the reference state machine. distinct_nontrivial = distinct per-DID " +
 			"histories (sequence of kind:class:verdict) with at least one accepted operation",
 		Cases: func(master uint64, tier string) []Case {
-			n, sweeps := 1400, 10
+			n, sweeps := 3000, 16
 			if tier == "thorough" {
 				n, sweeps = 300000, 1500
 			}
